@@ -1,6 +1,4 @@
-import MirGen.SepCrit
-import MirProofs.Props.C19
-import MirProofs.Props.C14_GenVal
+import MirProofs.Lemmas.PySep
 /-!
   C19 (generated definitions) — the functions of `mir_eval/separation.py` that `harness/translate/sepcrit.py` regenerates
   from the source on every run (`lean/MirGen/SepCrit.lean`, `Mir.Gen.separation.*`) equal the hand-written model
@@ -31,44 +29,6 @@ theorem image_crit_eq_model {V : Type} [Nd V] (sTrue eSpat eInterf eArtif : V) :
   simp only [Gen.separation._bss_image_crit, safe_db_eq_model]; rfl
 
 /-! ## 2. the decomposition arithmetic of `_bss_decomp_mtifilt` (`_project` is an extern parameter) -/
-
-theorem ok_bind {α β : Type} (a : α) (f : α → Py β) : (Except.ok a >>= f) = f a := rfl
-theorem error_bind {α β : Type} (e : PyErr) (f : α → Py β) : ((Except.error e : Py α) >>= f) = Except.error e := rfl
-
-theorem vsub_ok {a b : List Rat} (h : a.length = b.length) :
-    PyMel.vsub a b = .ok (List.zipWith (· - ·) a b) := by
-  simp [PyMel.vsub, PyMel.bcast, h]
-
-theorem vadd_ok {a b : List Rat} (h : a.length = b.length) :
-    PyMel.vadd a b = .ok (List.zipWith (· + ·) a b) := by
-  simp [PyMel.vadd, PyMel.bcast, h]
-
-theorem zeros_ok {flen : Nat} (hf : 1 ≤ flen) : PySep.zeros ((flen : Int) - 1) = .ok (List.replicate (flen - 1) 0) := by
-  have h1 : ¬ ((flen : Int) - 1 < 0) := by omega
-  have h2 : ((flen : Int) - 1).toNat = flen - 1 := by omega
-  simp [PySep.zeros, h1, h2]
-
-theorem zipWith_add_zeros (x : List Rat) : List.zipWith (· + ·) x (List.replicate x.length (0 : Rat)) = x := by
-  induction x with
-  | nil => rfl
-  | cons a t ih => simp [List.replicate_succ, ih]
-
-theorem zipWith_add_pad (a d est : List Rat) (h : a.length = est.length) :
-    List.zipWith (· + ·) (a ++ d) (est ++ List.replicate d.length 0) = List.zipWith (· + ·) a est ++ d := by
-  rw [List.zipWith_append h, zipWith_add_zeros]
-
-/-- `x[:n] += est` for `n = len(est) <= len(x)` adds the zero-padded estimate. -/
-theorem addPrefix_ok (x est : List Rat) (h : est.length ≤ x.length) :
-    PySep.addPrefix x est.length est = .ok (List.zipWith (· + ·) x (padTo x.length est)) := by
-  have hl : (x.take est.length).length = est.length := by simp [h]
-  have hd : (x.drop est.length).length = x.length - est.length := by simp
-  have key := zipWith_add_pad (x.take est.length) (x.drop est.length) est hl
-  rw [List.take_append_drop, hd] at key
-  unfold PySep.addPrefix
-  rw [vadd_ok hl]
-  have hz : (List.zipWith (· + ·) (x.take est.length) est).length = (x.take est.length).length := by simp [hl]
-  simp only [ok_bind, padTo, hz, ne_eq, not_true_eq_false, if_false, key]
-  rfl
 
 /-- `_bss_decomp_mtifilt` as translated = the model's `decompRow` on the two results of `_project`, whatever `_project`
     is, whenever those results have the length `nsampl + flen - 1` of the padded target (what `_project` returns). -/
@@ -154,14 +114,6 @@ theorem any_source_silent_eq_model (a : Separation.Arr) :
     simp [PySep.anyB, anySourceSilent, List.any_map, List.all_map, Function.comp_def]
     rfl
 
-theorem prodL_eq_foldl (l : List Nat) (k : Nat) : l.foldl (· * ·) k = k * Mir.Arr.prodL l := by
-  induction l generalizing k with
-  | nil => simp [Mir.Arr.prodL]
-  | cons a t ih => simp [Mir.Arr.prodL, ih, Nat.mul_assoc]
-
-theorem srcOf_size (a : Separation.Arr) : (PySep.srcOf a).size = a.size := by
-  simp [PySep.srcOf, Mir.Validate.Src.size, Separation.Arr.size, prodL_eq_foldl]
-
 /-- the validator GENERATED from the source (`Mir.GenV.separation.validate`, part `validators`, C14) on what it looks at
     = the separation model's `validate`, for all arrays. -/
 theorem validate_eq_model (r e : Separation.Arr) :
@@ -198,138 +150,6 @@ theorem validate_eq_model (r e : Separation.Arr) :
   · simp [h1]
 
 /-! ## 4. the selection glue of `bss_eval_sources` (the numerical kernel is a pair of extern parameters) -/
-
-theorem mapM_ok {α β : Type} (l : List α) (f : α → Py β) (g : α → β) (h : ∀ x ∈ l, f x = .ok (g x)) :
-    l.mapM f = .ok (l.map g) := by
-  induction l with
-  | nil => rfl
-  | cons a t ih =>
-    rw [List.mapM_cons, h a (by simp), ih (fun x hx => h x (by simp [hx]))]
-    rfl
-
-theorem forRange_ok {α : Type} (n : Nat) (f : Nat → Py α) (g : Nat → α) (h : ∀ i < n, f i = .ok (g i)) :
-    PySep.forRange n f = .ok ((List.range n).map g) :=
-  mapM_ok _ f g (fun x hx => h x (List.mem_range.mp hx))
-
-theorem forRange2_ok {α : Type} (n m : Nat) (f : Nat → Nat → Py α) (g : Nat → Nat → α)
-    (h : ∀ i < n, ∀ j < m, f i j = .ok (g i j)) :
-    PySep.forRange2 n m f = .ok ((List.range n).map fun i => (List.range m).map (g i)) :=
-  mapM_ok _ _ _ (fun i hi => mapM_ok _ _ _ (fun j hj => h i (List.mem_range.mp hi) j (List.mem_range.mp hj)))
-
-theorem forEnumFrom_ok {α β : Type} (f : Nat → α → Py β) (g : α → β) (xs : List α)
-    (h : ∀ k, ∀ x ∈ xs, f k x = .ok (g x)) (i : Nat) : PySep.forEnumFrom f i xs = .ok (xs.map g) := by
-  induction xs generalizing i with
-  | nil => rfl
-  | cons a t ih =>
-    rw [PySep.forEnumFrom, h i a (by simp), ok_bind, ih (fun k x hx => h k x (by simp [hx]))]
-    rfl
-
-/-- the table a fill loop wrote, as a function of the indices -/
-def tabOf (n : Nat) (M : Nat → Nat → Rat) : List (List Rat) :=
-  (List.range n).map fun e => (List.range n).map fun t => M e t
-
-theorem at2_tabOf (n : Nat) (M : Nat → Nat → Rat) (e t : Nat) (he : e < n) (ht : t < n) :
-    PySep.at2 (tabOf n M) e t = .ok (M e t) := by
-  simp [PySep.at2, tabOf, he, ht]
-
-theorem fancy2_tabOf (n : Nat) (M : Nat → Nat → Rat) (p : List Nat) (j : Nat)
-    (hp : ∀ e ∈ p, e < n) (hj : j + p.length ≤ n) :
-    PySep.fancy2 (tabOf n M) p (List.range' j p.length) = .ok (selectFrom M j p) := by
-  induction p generalizing j with
-  | nil => rfl
-  | cons e es ih =>
-    have h1 : e < n := hp e (by simp)
-    have h2 : j < n := by simp at hj; omega
-    simp only [List.length_cons, List.range'_succ, PySep.fancy2, at2_tabOf n M e j h1 h2, ok_bind]
-    rw [ih (j + 1) (fun x hx => hp x (by simp [hx])) (by simp at hj; omega)]
-    rfl
-
-theorem selectFrom_sum (S : Nat → Nat → Rat) (p : List Nat) (j : Nat) :
-    (selectFrom S j p).sum = scoreFrom S j p := by
-  induction p generalizing j with
-  | nil => rfl
-  | cons e es ih => simp [selectFrom, scoreFrom, ih]
-
-theorem selectFrom_length (S : Nat → Nat → Rat) (p : List Nat) (j : Nat) : (selectFrom S j p).length = p.length := by
-  induction p generalizing j with
-  | nil => rfl
-  | cons e es ih => simp [selectFrom, ih]
-
-theorem mean_selectFrom (S : Nat → Nat → Rat) (p : List Nat) :
-    PySep.mean (selectFrom S 0 p) = meanSir p.length S p := by
-  simp [PySep.mean, meanSir, score, selectFrom_sum, selectFrom_length]
-
-theorem argmaxAux_spec {α : Type} (f : α → Rat) (all : List α) :
-    ∀ (rest : List α) (b : α) (bi i : Nat), all[bi]? = some b → all.drop i = rest →
-      all[PySep.argmaxAux (f b) bi i (rest.map f)]? = some (firstMaxBy f b rest) := by
-  intro rest
-  induction rest with
-  | nil => intro b bi i hb _; simpa [PySep.argmaxAux, firstMaxBy] using hb
-  | cons x xs ih =>
-    intro b bi i hb hd
-    have hx : all[i]? = some x := by
-      have := congrArg List.head? hd
-      simpa [List.head?_drop] using this
-    have hd' : all.drop (i + 1) = xs := by
-      have := congrArg List.tail hd
-      simpa [List.tail_drop] using this
-    simp only [List.map_cons, PySep.argmaxAux, firstMaxBy]
-    split
-    · exact ih x i (i + 1) hx hd'
-    · exact ih b bi (i + 1) hb hd'
-
-/-- `perms[np.argmax([f(p) for p in perms])]` is the model's first maximiser. -/
-theorem getItem_argmax {α : Type} (f : α → Rat) (p : α) (ps : List α) :
-    (PySep.argmax ((p :: ps).map f) >>= fun k => PySep.getItem (p :: ps) k) = .ok (firstMaxBy f p ps) := by
-  have := argmaxAux_spec f (p :: ps) ps p 0 1 rfl rfl
-  simp only [List.map_cons, PySep.argmax, ok_bind, PySep.getItem, this]
-
-/-- the four outputs of the translated `bss_eval_sources` as the model lists them (`perm` as floats) -/
-def outList (x : List Rat × List Rat × List Rat × List Nat) : List (List Rat) :=
-  [x.1, x.2.1, x.2.2.1, x.2.2.2.map fun (e : Nat) => (e : Rat)]
-
-/-- the model's result as a list of vectors (`k` empty arrays for the empty special case) -/
-def flatOut : Out → List (List Rat)
-  | .empties k => List.replicate k []
-  | .vecs vs => vs
-  | .mats _ => []
-
-theorem promote2_eq (a : Separation.Arr) :
-    (if decide (PySep.ndim a = 1) = true then PySep.newaxis0 a else a) = promote2 a := by
-  unfold promote2 PySep.ndim PySep.newaxis0
-  by_cases h : a.shape.length = 1 <;> simp [h]
-
-theorem validate_shape_ne_nil (R E : Separation.Arr) (hv : validate R E = .ok ()) : E.shape ≠ [] := by
-  intro h
-  unfold validate at hv
-  by_cases h1 : R.shape = E.shape
-  · simp [h1, h, Separation.Arr.size, bind, Except.bind, throw, throwThe, MonadExceptOf.throw] at hv
-  · simp [h1, bind, Except.bind, throw, throwThe, MonadExceptOf.throw] at hv
-
-theorem selectFrom_diag (M : Nat → Nat → Rat) (k j : Nat) :
-    selectFrom M j (List.range' j k) = (List.range' j k).map fun i => M i i := by
-  induction k generalizing j with
-  | zero => rfl
-  | succ k ih => simp [List.range'_succ, selectFrom, ih]
-
-theorem tab2_tabOf (n : Nat) (C : Nat → Nat → Nat → Rat) (o : Nat) (ho : o < 3) :
-    PySep.tab2 ((List.range n).map fun e => (List.range n).map fun t => [C e t 0, C e t 1, C e t 2]) o
-      = tabOf n (fun e t => C e t o) := by
-  have : o = 0 ∨ o = 1 ∨ o = 2 := by omega
-  rcases this with rfl | rfl | rfl <;> simp [PySep.tab2, tabOf, List.map_map, Function.comp_def]
-
-theorem mem_perms_range (n : Nat) (p : List Nat) (hp : p ∈ perms (List.range n)) :
-    p.length = n ∧ ∀ e ∈ p, e < n := by
-  have h := (perms_are_the_permutations (List.range n) p).mp hp
-  refine ⟨by simpa using h.length_eq, fun e he => ?_⟩
-  have := h.mem_iff.mp he
-  simpa using this
-
-theorem fancy2_perm (n : Nat) (M : Nat → Nat → Rat) (p : List Nat) (hp : p ∈ perms (List.range n)) :
-    PySep.fancy2 (tabOf n M) p (List.range n) = .ok (selectFrom M 0 p) := by
-  obtain ⟨hl, hlt⟩ := mem_perms_range n p hp
-  have := fancy2_tabOf n M p 0 hlt (by omega)
-  rwa [hl, ← List.range_eq_range'] at this
 
 /-- `bss_eval_sources` as translated = the model's `bssEvalSources`, for ALL arrays (1-D promoted, empty, invalid) and
     both values of `compute_permutation`, whenever the kernel (the two extern parameters, run on estimate `e` against
@@ -408,13 +228,6 @@ theorem bss_eval_sources_eq_model {σ : Type} (ref est : Separation.Arr) (cp : B
         simp only [List.map_cons, PySep.argmax, ok_bind, hgi, ← hbest, fancy2_perm n _ _ hmem]
         simp [outList, flatOut, selectOutputs, Except.map, pure, Except.pure, List.range_succ]
 
-theorem outList_injective : Function.Injective outList := by
-  rintro ⟨a, b, c, p⟩ ⟨a', b', c', p'⟩ h
-  simp only [outList, List.cons.injEq, and_true] at h
-  obtain ⟨h1, h2, h3, h4⟩ := h
-  have : p = p' := List.map_injective_iff.mpr (fun x y hxy => by exact_mod_cast hxy) h4
-  simp [h1, h2, h3, this]
-
 /-- HEADLINE (on the translated `bss_eval_sources`, valid non-empty input, kernel returning `C`): the four outputs are
     the criteria selected along `popt`, where `popt` is the identity without `compute_permutation` and otherwise a
     PERMUTATION of `0 … nsrc-1` that MAXIMISES the mean SIR (the first such in `itertools.permutations` order). -/
@@ -458,5 +271,251 @@ theorem gen_bss_eval_sources_headline {σ : Type} (ref est : Separation.Arr) (cp
 
 example : Gen.separation._safe_db 1 0 = .ok .posInf ∧ Gen.separation._safe_db 3 4 = .ok (.ofRatio (3 / 4)) := by
   refine ⟨by rw [safe_db_eq_model]; rfl, by rw [safe_db_eq_model]; rfl⟩
+
+/-! ## 5. the window loop of the framewise functions (the non-framewise function is an extern parameter) -/
+
+/-- `int(np.floor((nsampl - window + hop) / hop))` as translated = the model's `nwin` (`hop >= 0`; `hop = 0` is the
+    `ZeroDivisionError` of the Python division). -/
+theorem nwin_eq_model (m window hop : Int) (hh : 0 ≤ hop) :
+    (PyS.divF (((m - window + hop : Int)) : Rat) ((hop : Int) : Rat)).map PySep.floorInt = nwin m window hop := by
+  unfold nwin PyS.divF
+  by_cases h0 : hop = 0
+  · simp [h0]; rfl
+  · have hc : ((hop : Int) : Rat) ≠ 0 := by exact_mod_cast h0
+    simp only [hc, h0, if_false, Except.map, PySep.floorInt]
+    have hn : hop = ((hop.toNat : Nat) : Int) := by omega
+    rw [Int.fdiv_eq_ediv_of_nonneg _ hh]
+    have hq : ((hop : Int) : Rat) = ((hop.toNat : Nat) : Rat) := by
+      conv => lhs; rw [hn]
+      exact Int.cast_natCast _
+    have e2 : (m - window + hop) / hop = (m - window + hop) / ((hop.toNat : Nat) : Int) := by rw [← hn]
+    have := Rat.floor_intCast_div_natCast (m - window + hop) hop.toNat
+    rw [hq, e2, ← this]
+    rfl
+
+theorem silent_slice (a : Separation.Arr) (s e : Nat) (h : 2 ≤ a.shape.length) :
+    Gen.separation._any_source_silent (sliceArr a s e) = .ok (anySourceSilent (sliceArr a s e)) := by
+  rw [any_source_silent_eq_model, sliceArr_shape_length]
+  have : ¬ a.shape.length < 2 := by omega
+  simp [this]
+
+/-- `bss_eval_sources_framewise` as translated = the model's `sourcesFramewise`, for ALL arrays (1-D promoted, empty,
+    invalid), every `window >= 0`, `hop >= 0` (`hop = 0`: `ZeroDivisionError`) and both values of `compute_permutation`,
+    whatever function `bss` stands for `bss_eval_sources` (as long as it returns one value per source): the fall-back
+    below two windows, the window slices, the NaN columns of silent windows, no cell left unwritten. -/
+theorem sources_framewise_eq_model (ref est : Separation.Arr) (window hop : Int) (cp : Bool)
+    (bss : Separation.Arr → Separation.Arr → Bool → Py (List Rat × List Rat × List Rat × List Nat))
+    (ev : Separation.Arr → Separation.Arr → Bool → Nat → Nat → Rat) (pv : Separation.Arr → Separation.Arr → Nat → Nat)
+    (hw : 0 ≤ window) (hh : 0 ≤ hop)
+    (hB : ∀ r t, bss r t cp = .ok ((List.range (r.shape.headD 0)).map (ev r t cp 0),
+      (List.range (r.shape.headD 0)).map (ev r t cp 1), (List.range (r.shape.headD 0)).map (ev r t cp 2),
+      (List.range (r.shape.headD 0)).map (pv r t)))
+    (hP : ∀ r t j, ev r t cp 3 j = ((pv r t j : Nat) : Rat)) :
+    (Gen.separation.bss_eval_sources_framewise ref est window hop cp bss).map matsOut4
+      = (sourcesFramewise ev ref est window hop cp).map flatMats := by
+  unfold Gen.separation.bss_eval_sources_framewise sourcesFramewise
+  simp only [promote2_eq, validate_eq_model]
+  generalize promote2 est = E at *
+  generalize promote2 ref = R at *
+  cases hv : validate R E with
+  | error err => rfl
+  | ok u =>
+    simp only [ok_bind]
+    by_cases hz : R.size = 0 ∨ E.size = 0
+    · have : (decide (R.size = 0) || decide (E.size = 0)) = true := by simpa using hz
+      simp only [this, if_true, hz]
+      rfl
+    · have hz' : (decide (R.size = 0) || decide (E.size = 0)) = false := by simpa using hz
+      simp only [hz', hz, if_false, Bool.false_eq_true]
+      have hRE := validate_shapes R E hv
+      have hnd := validate_ndim R E hv (by tauto)
+      obtain ⟨n, m, t, hs⟩ : ∃ n m t, R.shape = n :: m :: t := by
+        rcases h : R.shape with _ | ⟨n, _ | ⟨m, t⟩⟩
+        · simp [h] at hnd
+        · simp [h] at hnd
+        · exact ⟨n, m, t, rfl⟩
+      have hsE : E.shape = n :: m :: t := by rw [← hRE, hs]
+      have h0 : PySep.shapeAt R 0 = .ok n := by simp [PySep.shapeAt, hs]
+      have h1 : PySep.shapeAt R 1 = .ok m := by simp [PySep.shapeAt, hs]
+      have hnw := nwin_eq_model m window hop hh
+      unfold framewiseBody
+      simp only [h0, h1, ok_bind, hs, List.headD_cons, List.drop_succ_cons, List.drop_zero]
+      rw [← hnw]
+      cases hq : PyS.divF (((m : Int) - window + hop : Int) : Rat) ((hop : Int) : Rat) with
+      | error err => rfl
+      | ok q =>
+        simp only [Except.map, ok_bind]
+        by_cases h2 : PySep.floorInt q < 2
+        · simp only [h2, decide_true, if_true, hB R E, ok_bind, hs, List.headD_cons]
+          simp [matsOut4, flatMats, PySep.expandLast, PySep.expandLastN, List.range_succ, hP, List.map_map,
+            Function.comp_def, pure, Except.pure]
+        · simp only [h2, decide_false, if_false, Bool.false_eq_true]
+          rw [forRange_ok _ _ (fun k => (List.range 4).map fun o => (List.range n).map fun j =>
+            wcell ev R E window hop cp k o j) (by
+              intro k hk
+              have e1 : ((k : Nat) : Int) * hop = ((k * hop.toNat : Nat) : Int) := by
+                rw [Nat.cast_mul, Int.toNat_of_nonneg hh]
+              have e2 : ((k * hop.toNat : Nat) : Int) + window = ((k * hop.toNat + window.toNat : Nat) : Int) := by
+                rw [Nat.cast_add, Int.toNat_of_nonneg hw]
+              have hr0 : ∀ (a : Separation.Arr) (s e : Nat), a.shape = n :: m :: t → (sliceArr a s e).shape.headD 0 = n := by
+                intro a s e ha; simp [sliceArr, ha]
+              have hr0' : ∀ (a : Separation.Arr) (s e : Nat), a.shape = n :: m :: t →
+                  (sliceArr a s e).shape.head?.getD 0 = n := by
+                intro a s e ha; simp [sliceArr, ha]
+              simp only [e1, e2, slice1_eq_model R 2 _ _ hnd, slice1_eq_model E 2 _ _ (by rw [← hRE]; exact hnd), ok_bind,
+                silent_slice R _ _ hnd, silent_slice E _ _ (by rw [← hRE]; exact hnd)]
+              cases hsr : anySourceSilent (sliceArr R (k * hop.toNat) (k * hop.toNat + window.toNat)) <;>
+              cases hst : anySourceSilent (sliceArr E (k * hop.toNat) (k * hop.toNat + window.toNat)) <;>
+              simp [hB, hr0 _ _ _ hs, hr0' _ _ _ hs, colOf_range, colOfN_range, wcell, hsr, hst, PySep.nanCol, List.range_succ, hP, pure,
+                Except.pure, ok_bind])]
+          simp only [ok_bind, pure, Except.pure, matsOut4, flatMats,
+            matOfCols_spec n _ 4 (wcell ev R E window hop cp) 0 (by decide),
+            matOfCols_spec n _ 4 (wcell ev R E window hop cp) 1 (by decide),
+            matOfCols_spec n _ 4 (wcell ev R E window hop cp) 2 (by decide),
+            matOfCols_spec n _ 4 (wcell ev R E window hop cp) 3 (by decide)]
+          simp [windows, wcell, List.range_succ, List.map_map, Function.comp_def]
+
+/-- `bss_eval_images_framewise` as translated = the model's `imagesFramewise` (FIVE outputs; NaN in all five on a silent
+    window, five empty arrays on empty input), for ALL arrays (made 3-D, empty, invalid), every `window >= 0`, `hop >= 0` (`hop = 0`: `ZeroDivisionError`) and both values of `compute_permutation`,
+    whatever function `bss` stands for `bss_eval_images` (as long as it returns one value per source): the fall-back
+    below two windows, the window slices, the NaN columns of silent windows, no cell left unwritten. -/
+theorem images_framewise_eq_model (ref est : Separation.Arr) (window hop : Int) (cp : Bool)
+    (bss : Separation.Arr → Separation.Arr → Bool → Py (List Rat × List Rat × List Rat × List Rat × List Nat))
+    (ev : Separation.Arr → Separation.Arr → Bool → Nat → Nat → Rat) (pv : Separation.Arr → Separation.Arr → Nat → Nat)
+    (hw : 0 ≤ window) (hh : 0 ≤ hop)
+    (hB : ∀ r t, bss r t cp = .ok ((List.range (r.shape.headD 0)).map (ev r t cp 0),
+      (List.range (r.shape.headD 0)).map (ev r t cp 1), (List.range (r.shape.headD 0)).map (ev r t cp 2),
+      (List.range (r.shape.headD 0)).map (ev r t cp 3), (List.range (r.shape.headD 0)).map (pv r t)))
+    (hP : ∀ r t j, ev r t cp 4 j = ((pv r t j : Nat) : Rat)) :
+    (Gen.separation.bss_eval_images_framewise ref est window hop cp bss).map matsOut5
+      = (imagesFramewise ev ref est window hop cp).map flatMats := by
+  unfold Gen.separation.bss_eval_images_framewise imagesFramewise
+  simp only [validate_eq_model]
+  have h3 := atleast3d_ndim ref
+  generalize atleast3d est = E at *
+  generalize atleast3d ref = R at *
+  cases hv : validate R E with
+  | error err => rfl
+  | ok u =>
+    simp only [ok_bind]
+    by_cases hz : R.size = 0 ∨ E.size = 0
+    · have : (decide (R.size = 0) || decide (E.size = 0)) = true := by simpa using hz
+      simp only [this, if_true, hz]
+      rfl
+    · have hz' : (decide (R.size = 0) || decide (E.size = 0)) = false := by simpa using hz
+      simp only [hz', hz, if_false, Bool.false_eq_true]
+      have hRE := validate_shapes R E hv
+      have hnd : 2 ≤ R.shape.length := by omega
+      obtain ⟨n, m, t, hs⟩ : ∃ n m t, R.shape = n :: m :: t := by
+        rcases h : R.shape with _ | ⟨n, _ | ⟨m, t⟩⟩
+        · simp [h] at hnd
+        · simp [h] at hnd
+        · exact ⟨n, m, t, rfl⟩
+      have hsE : E.shape = n :: m :: t := by rw [← hRE, hs]
+      have h0 : PySep.shapeAt R 0 = .ok n := by simp [PySep.shapeAt, hs]
+      have h1 : PySep.shapeAt R 1 = .ok m := by simp [PySep.shapeAt, hs]
+      have hnw := nwin_eq_model m window hop hh
+      unfold framewiseBody
+      simp only [h0, h1, ok_bind, hs, List.headD_cons, List.drop_succ_cons, List.drop_zero]
+      rw [← hnw]
+      cases hq : PyS.divF (((m : Int) - window + hop : Int) : Rat) ((hop : Int) : Rat) with
+      | error err => rfl
+      | ok q =>
+        simp only [Except.map, ok_bind]
+        by_cases h2 : PySep.floorInt q < 2
+        · simp only [h2, decide_true, if_true, hB R E, ok_bind, hs, List.headD_cons]
+          simp [matsOut5, flatMats, PySep.expandLast, PySep.expandLastN, List.range_succ, hP, List.map_map,
+            Function.comp_def, pure, Except.pure]
+        · simp only [h2, decide_false, if_false, Bool.false_eq_true]
+          rw [forRange_ok _ _ (fun k => (List.range 5).map fun o => (List.range n).map fun j =>
+            wcell ev R E window hop cp k o j) (by
+              intro k hk
+              have e1 : ((k : Nat) : Int) * hop = ((k * hop.toNat : Nat) : Int) := by
+                rw [Nat.cast_mul, Int.toNat_of_nonneg hh]
+              have e2 : ((k * hop.toNat : Nat) : Int) + window = ((k * hop.toNat + window.toNat : Nat) : Int) := by
+                rw [Nat.cast_add, Int.toNat_of_nonneg hw]
+              have hr0 : ∀ (a : Separation.Arr) (s e : Nat), a.shape = n :: m :: t → (sliceArr a s e).shape.headD 0 = n := by
+                intro a s e ha; simp [sliceArr, ha]
+              have hr0' : ∀ (a : Separation.Arr) (s e : Nat), a.shape = n :: m :: t →
+                  (sliceArr a s e).shape.head?.getD 0 = n := by
+                intro a s e ha; simp [sliceArr, ha]
+              simp only [e1, e2, slice1_eq_model R 3 _ _ h3, slice1_eq_model E 3 _ _ (by rw [← hRE]; exact h3), ok_bind,
+                silent_slice R _ _ hnd, silent_slice E _ _ (by rw [← hRE]; exact hnd)]
+              cases hsr : anySourceSilent (sliceArr R (k * hop.toNat) (k * hop.toNat + window.toNat)) <;>
+              cases hst : anySourceSilent (sliceArr E (k * hop.toNat) (k * hop.toNat + window.toNat)) <;>
+              simp [hB, hr0 _ _ _ hs, hr0' _ _ _ hs, colOf_range, colOfN_range, wcell, hsr, hst, PySep.nanCol, List.range_succ, hP, pure,
+                Except.pure, ok_bind])]
+          simp only [ok_bind, pure, Except.pure, matsOut5, flatMats,
+            matOfCols_spec n _ 5 (wcell ev R E window hop cp) 0 (by decide),
+            matOfCols_spec n _ 5 (wcell ev R E window hop cp) 1 (by decide),
+            matOfCols_spec n _ 5 (wcell ev R E window hop cp) 2 (by decide),
+            matOfCols_spec n _ 5 (wcell ev R E window hop cp) 3 (by decide),
+            matOfCols_spec n _ 5 (wcell ev R E window hop cp) 4 (by decide)]
+          simp [windows, wcell, List.range_succ, List.map_map, Function.comp_def]
+
+/-- HEADLINE (framewise row k = non-framewise on window k, on the translated `bss_eval_sources_framewise`): on a valid
+    non-empty input with at least two windows every cell of all FOUR returned matrices is what `bss` (the function
+    standing for `bss_eval_sources`) returns on that window's slices, or NaN when the window has a silent source. -/
+theorem gen_sources_framewise_consistent (ref est : Separation.Arr) (window hop : Int) (cp : Bool) (nw : Int)
+    (bss : Separation.Arr → Separation.Arr → Bool → Py (List Rat × List Rat × List Rat × List Nat))
+    (ev : Separation.Arr → Separation.Arr → Bool → Nat → Nat → Rat) (pv : Separation.Arr → Separation.Arr → Nat → Nat)
+    (hw : 0 ≤ window) (hh : 0 ≤ hop)
+    (hB : ∀ r t, bss r t cp = .ok ((List.range (r.shape.headD 0)).map (ev r t cp 0),
+      (List.range (r.shape.headD 0)).map (ev r t cp 1), (List.range (r.shape.headD 0)).map (ev r t cp 2),
+      (List.range (r.shape.headD 0)).map (pv r t)))
+    (hP : ∀ r t j, ev r t cp 3 j = ((pv r t j : Nat) : Rat))
+    (hv : validate (promote2 ref) (promote2 est) = .ok ())
+    (hne : ¬ ((promote2 ref).size = 0 ∨ (promote2 est).size = 0))
+    (hn : nwin ((((promote2 ref).shape.drop 1).headD 0 : Nat)) window hop = .ok nw) (h2 : 2 ≤ nw) :
+    ∃ x, Gen.separation.bss_eval_sources_framewise ref est window hop cp bss = .ok x ∧
+      ∀ o j k, o < 4 → j < (promote2 ref).shape.headD 0 → k < nw.toNat →
+        cellAt (matsOut4 x) o j k = some (windowCell (fun _ => true) ev (promote2 ref) (promote2 est) cp
+          (k * hop.toNat) (k * hop.toNat + window.toNat) o j) := by
+  obtain ⟨ms, h, _, hc⟩ := sources_framewise_consistent ev ref est window hop cp nw hv hne hn h2
+  have he := sources_framewise_eq_model ref est window hop cp bss ev pv hw hh hB hP
+  rw [h] at he
+  cases hG : Gen.separation.bss_eval_sources_framewise ref est window hop cp bss with
+  | error e => rw [hG] at he; simp [Except.map] at he
+  | ok x =>
+    rw [hG] at he
+    have hx : matsOut4 x = ms := by simpa [Except.map, flatMats] using he
+    exact ⟨x, rfl, by rw [hx]; exact hc⟩
+
+/-- HEADLINE (images): the same for all FIVE matrices — in particular NaN in EVERY one of them (ISR included) on a
+    silent window, no cell left unwritten. -/
+theorem gen_images_framewise_consistent (ref est : Separation.Arr) (window hop : Int) (cp : Bool) (nw : Int)
+    (bss : Separation.Arr → Separation.Arr → Bool → Py (List Rat × List Rat × List Rat × List Rat × List Nat))
+    (ev : Separation.Arr → Separation.Arr → Bool → Nat → Nat → Rat) (pv : Separation.Arr → Separation.Arr → Nat → Nat)
+    (hw : 0 ≤ window) (hh : 0 ≤ hop)
+    (hB : ∀ r t, bss r t cp = .ok ((List.range (r.shape.headD 0)).map (ev r t cp 0),
+      (List.range (r.shape.headD 0)).map (ev r t cp 1), (List.range (r.shape.headD 0)).map (ev r t cp 2),
+      (List.range (r.shape.headD 0)).map (ev r t cp 3), (List.range (r.shape.headD 0)).map (pv r t)))
+    (hP : ∀ r t j, ev r t cp 4 j = ((pv r t j : Nat) : Rat))
+    (hv : validate (atleast3d ref) (atleast3d est) = .ok ())
+    (hne : ¬ ((atleast3d ref).size = 0 ∨ (atleast3d est).size = 0))
+    (hn : nwin ((((atleast3d ref).shape.drop 1).headD 0 : Nat)) window hop = .ok nw) (h2 : 2 ≤ nw) :
+    ∃ x, Gen.separation.bss_eval_images_framewise ref est window hop cp bss = .ok x ∧
+      (∀ o j k, o < 5 → j < (atleast3d ref).shape.headD 0 → k < nw.toNat →
+        cellAt (matsOut5 x) o j k = some (windowCell (fun _ => true) ev (atleast3d ref) (atleast3d est) cp
+          (k * hop.toNat) (k * hop.toNat + window.toNat) o j)) ∧
+      (∀ o j k, o < 5 → j < (atleast3d ref).shape.headD 0 → k < nw.toNat →
+        (anySourceSilent (sliceArr (atleast3d ref) (k * hop.toNat) (k * hop.toNat + window.toNat)) ||
+          anySourceSilent (sliceArr (atleast3d est) (k * hop.toNat) (k * hop.toNat + window.toNat))) = true →
+        cellAt (matsOut5 x) o j k = some .nan) := by
+  obtain ⟨ms, h, _, hc⟩ := images_framewise_consistent ev ref est window hop cp nw hv hne hn h2
+  have he := images_framewise_eq_model ref est window hop cp bss ev pv hw hh hB hP
+  rw [h] at he
+  cases hG : Gen.separation.bss_eval_images_framewise ref est window hop cp bss with
+  | error e => rw [hG] at he; simp [Except.map] at he
+  | ok x =>
+    rw [hG] at he
+    have hx : matsOut5 x = ms := by simpa [Except.map, flatMats] using he
+    refine ⟨x, rfl, by rw [hx]; exact hc, fun o j k ho hj hk hs => ?_⟩
+    rw [hx, hc o j k ho hj hk]
+    simp only [windowCell, hs, if_true]
+
+/-- non-vacuity: the stand-in of the driver satisfies the hypotheses on `bss` (a value per source, `perm` integral) -/
+example : ∃ x, PySep.stubEval4 ⟨[2, 3], [[[1], [2], [0]], [[0], [1], [1]]]⟩ ⟨[2, 3], [[[1], [0], [0]], [[2], [1], [1]]]⟩ true
+    = .ok x ∧ x.2.2.2 = [1, 0] := ⟨_, rfl, by decide +kernel⟩
 
 end Mir.C19.Gen
